@@ -75,6 +75,7 @@ func main() {
 	noPanics := flag.Bool("nopanics", false, "do not discharge panic obligations")
 	dumpDir := flag.String("dump", "", "dump smt queries to dir")
 	maxCalls := flag.Int("maxcalls", 200000, "inlined call budget")
+	assumeUnwind := flag.String("assumeunwind", "newShortID=2", "fn=k,...: loops of fn are assumed (not asserted) to exit within k iterations")
 	stubs := flag.String("stubs", "", "comma-separated fn=harnessFn: replace an ergo function by a harness-level summary (verified separately)")
 	flag.Parse()
 
@@ -146,6 +147,14 @@ func main() {
 			return res
 		}
 	}
+	au := map[string]int{}
+	for _, kv := range strings.Split(*assumeUnwind, ",") {
+		if p := strings.SplitN(kv, "=", 2); len(p) == 2 {
+			n := 0
+			fmt.Sscanf(p[1], "%d", &n)
+			au[p[0]] = n
+		}
+	}
 	pool := NewSolverPool(*solver, *workers)
 	var pool2 *SolverPool
 	if *second != "" {
@@ -153,7 +162,7 @@ func main() {
 	}
 	ents := strings.Split(*entries, ",")
 	for _, entry := range ents {
-		res := runEntry(prog, epkg, entry, Config{LoopBound: *loopB, RecBound: *recB, SliceCap: *sliceCap, MaxCalls: *maxCalls}, pool, pool2, *timeout, *trace, *noPanics, *dumpDir)
+		res := runEntry(prog, epkg, entry, Config{AssumeUnwind: au, LoopBound: *loopB, RecBound: *recB, SliceCap: *sliceCap, MaxCalls: *maxCalls}, pool, pool2, *timeout, *trace, *noPanics, *dumpDir)
 		res.LoadTime = loadTime
 		res.Solver = *solver
 		data, _ := json.MarshalIndent(res, "", " ")
@@ -200,10 +209,30 @@ func runEntry(prog *ssa.Program, epkg *ssa.Package, entry string, cfg Config, po
 	False = TS.intern(&Term{op: "const", sort: SBool, ival: bigZero})
 	outputs = nil
 	upperMemo = map[*Term][2]int{}
+	nonNegMemo = map[*Term]bool{}
+	pushMemo = map[[3]int]*Term{}
+	parseMemo = map[*Term][2]*Term{}
 	wrapped = map[*Object]RefV{}
 	shortIDCount = 0
 	ex := NewExec(prog, epkg, cfg)
 	ex.trace = trace
+	if os.Getenv("GOSMT_PROFILE") != "" {
+		termProfile = map[string]int{}
+		defer func() {
+			type kv struct {
+				k string
+				v int
+			}
+			var l []kv
+			for k, v := range termProfile {
+				l = append(l, kv{k, v})
+			}
+			sort.Slice(l, func(i, j int) bool { return l[i].v > l[j].v })
+			for i := 0; i < len(l) && i < 25; i++ {
+				fmt.Fprintf(os.Stderr, "PROFILE %8d %s\n", l[i].v, l[i].k)
+			}
+		}()
+	}
 	ex.world = NewWorld(ex)
 	t0 := time.Now()
 	func() {
